@@ -18,6 +18,9 @@ pub struct Profile {
     pub setup: usize,
     /// probability (x/256) that the next step is a concurrent batch of 2-5 requests
     pub batch: u8,
+    /// probability (x/256) that the next step ends a connection by dropping its broker-side task
+    /// right after it forwarded a request (then the broker is told through shutdown_connection)
+    pub drop_task: u8,
     pub max_ops: usize,
     pub nontrivial: fn(&BTreeSet<&'static str>, &Stats) -> bool,
 }
@@ -98,6 +101,68 @@ fn history(p: &'static Profile, tape: &[u8]) -> (Outcome, String) {
     tryf!(setup(p, &mut w));
     let mut ops = 0;
     while !t.exhausted() && ops < p.max_ops {
+        if p.drop_task > 0 && t.chance(p.drop_task) {
+            // a connection's task dies with a request queued; the broker learns of it explicitly
+            let alive: Vec<C> = w.model.conns.iter().filter(|(i, c)| c.alive && Some(**i) != observer.map(|o| o.0)).map(|(i, _)| *i).collect();
+            ops += 1;
+            if alive.len() >= 2 {
+                let v = *t.pick(&alive);
+                let mut msg = None;
+                for _ in 0..10 {
+                    if let Some(Action::Inject(c, m)) = next_action(&mut t, &w, p.weights) {
+                        if c == v && !matches!(m, Message::Shutdown(_)) {
+                            msg = Some(m);
+                            break;
+                        }
+                    }
+                }
+                if let Some(m) = msg {
+                    w.history.push(format!("c{} -> {} ; its task is dropped while the request is queued, then the broker handle shuts the connection down", v, crate::engine::short(&m)));
+                    w.conns[v].peer.send(m.clone());
+                    let task = w.conns[v].task;
+                    for _ in 0..(1 + t.below(3)) {
+                        w.bus.sim.poll_task(task);
+                    }
+                    w.bus.sim.kill(task);
+                    w.zombies.insert(v);
+                    w.model.unobservable.insert(v);
+                    if let Some(ch) = w.conns[v].handle.borrow().clone() {
+                        let mut bh = w.bus.handle.clone();
+                        w.bus.sim.spawn("shutdown-conn", async move {
+                            let _ = bh.shutdown_connection(&ch).await;
+                        });
+                    }
+                    tryf!(w.run());
+                    let obs = w.drain_all();
+                    // the queued request may or may not have been processed before the removal
+                    let saved = w.model.clone();
+                    let saved_notes = w.notes.len();
+                    let mut eff = w.model.step(v, &m, &crate::model::ObsView::new(&obs));
+                    eff.problems.clear();
+                    w.model.conn_gone(&mut eff, v);
+                    eff.closed.remove(&v);
+                    if let Err(fa) = w.compare(eff, obs.clone()) {
+                        w.model = saved;
+                        w.notes.truncate(saved_notes);
+                        let mut eff = crate::model::Effects::default();
+                        w.model.conn_gone(&mut eff, v);
+                        if let Err(fb) = w.compare(eff, obs) {
+                            let f = Fail::new(fa.signature.clone(), format!("(request processed) {}\n(request not processed) {}: {}", fa.detail, fb.signature, fb.detail));
+                            let text = w.history.join("\n");
+                            return (f.outcome(&w.history), text);
+                        }
+                    }
+                    w.model.unobservable.remove(&v);
+                    w.notes.push("task-dropped-with-queued-request");
+                    // (v stays in `zombies`: nothing can be observed on it any more)
+                    if let Some((o, cookie)) = observer {
+                        tryf!(w.inject(o, Message::StartBusListener(StartBusListener { serial: 1, cookie, scope: BusListenerScope::Current })));
+                        tryf!(w.inject(o, Message::StopBusListener(StopBusListener { serial: 2, cookie })));
+                    }
+                }
+            }
+            continue;
+        }
         if p.batch > 0 && t.chance(p.batch) {
             // concurrent batch
             let k = t.range(2, 5);
@@ -298,6 +363,7 @@ static P_C03: Profile = Profile {
     observer: true,
     setup: 0,
     batch: 0,
+    drop_task: 12,
     max_ops: 60,
     nontrivial: |n, _| n.contains("create-object:duplicate") as u8 + n.contains("foreign-access") as u8 + (n.contains("cascade:service-with-object") || n.contains("cascade:owner-disconnect")) as u8 >= 2,
 };
@@ -312,13 +378,37 @@ pub static C03: CheckDef = CheckDef {
         "broker built without its 'introspection' feature",
     ],
     plan: |t| plan(40000, t),
-    case: |_, tape, _| run_history(&P_C03, tape),
-    render: |_, tape| render_history(&P_C03, tape),
+    case: |class, tape, _| {
+        if class == "conformance" {
+            crate::conformance::run_scenario(u32::from_le_bytes([tape[0], tape[1], tape[2], tape[3]]) as usize)
+        } else {
+            run_history(&P_C03, tape)
+        }
+    },
+    render: |class, tape| {
+        if class == "conformance" {
+            crate::conformance::render_scenario(u32::from_le_bytes([tape[0], tape[1], tape[2], tape[3]]) as usize)
+        } else {
+            render_history(&P_C03, tape)
+        }
+    },
     crashy: false,
-    floors: &[("create-object:duplicate", 0.3), ("foreign-access", 0.3), ("cascade:service-with-object", 0.15), ("cascade:owner-disconnect", 0.15)],
-    extra: None,
-    extra_coverage: None,
+    floors: &[("create-object:duplicate", 0.3), ("foreign-access", 0.3), ("cascade:service-with-object", 0.15), ("cascade:owner-disconnect", 0.15), ("task-dropped-with-queued-request", 0.1)],
+    extra: Some(conformance_scenarios),
+    extra_coverage: Some(|_| {
+        let (ok, total, unsupported) = crate::conformance::supported_summary();
+        serde_json::json!({"model_validation": {"upstream_conformance_scenarios_total": total, "fully_replayed_lockstep": ok, "unsupported": unsupported}})
+    }),
 };
+
+/// Model validation: upstream's own protocol scenarios (conformance-tester/tests/*.json, not part
+/// of the test suite) are replayed lock-step through the same engine and model on every run.
+fn conformance_scenarios(ctx: &mut vcommon::Ctx) {
+    let n = crate::conformance::scenarios().len();
+    for i in 0..n {
+        ctx.eval_case("conformance", &(i as u32).to_le_bytes());
+    }
+}
 
 // ---------------------------------------------------------------------------------------------
 // C02
@@ -343,6 +433,7 @@ static P_C02: Profile = Profile {
     observer: false,
     setup: 2,
     batch: 70,
+    drop_task: 0,
     max_ops: 70,
     nontrivial: |n, s| {
         s.max_pending_calls >= 2
@@ -393,6 +484,7 @@ static P_C04: Profile = Profile {
     observer: false,
     setup: 2,
     batch: 70,
+    drop_task: 0,
     max_ops: 70,
     nontrivial: |n, s| s.max_overlap_subs >= 2 && (n.contains("unsubscribe-by-disconnect") || n.contains("transition:all:1->0") || n.contains("transition:all:0->1")),
 };
@@ -434,6 +526,7 @@ static P_C05: Profile = Profile {
     observer: false,
     setup: 0,
     batch: 70,
+    drop_task: 0,
     max_ops: 90,
     nontrivial: |n, s| (s.items_sent_max >= 5 && n.contains("capacity:added")) || n.contains("send:exceeds-capacity") || n.contains("capacity:overflow"),
 };
@@ -480,6 +573,7 @@ static P_C10: Profile = Profile {
     observer: false,
     setup: 1,
     batch: 40,
+    drop_task: 0,
     max_ops: 80,
     nontrivial: |n, s| n.contains("listener:start-current>=2") && (n.contains("filter:removed") || n.contains("filter:cleared")) && s.max_listeners_on_one_conn >= 2,
 };
